@@ -34,7 +34,10 @@ MAX_REQUEST = 300_000      # bytes of one `search` request (≈ 1500 events); lo
 def _fragments(meta):
     out = [dict(modal=False, quant=False, ident=False)]
     if meta['modal']:
-        out += [dict(modal=True, quant=False, ident=False)] * 4
+        out += [dict(modal=True, quant=False, ident=False)] * 3
+    if meta.get('quantified'):
+        # first-order arguments (no identity: IdentityIndiscernability is not modelled): NodeConsts / MaxConsts / new_constant
+        out += [dict(modal=False, quant=True, ident=False), dict(modal=bool(meta['modal']), quant=True, ident=False)]
     return out
 
 
@@ -48,10 +51,10 @@ def make_jobs(ctx: Ctx, data, rng, per_modal, per_plain):
             f = fr[k % len(fr)]
             if k % 2:
                 prem, conc = tabrun.schema_argument(rng, depth=rng.choice([1, 2]), **f)
-                dist['schema-' + ('modal' if f['modal'] else 'prop')] += 1
+                dist['schema-' + ('fo-' if f['quant'] else '') + ('modal' if f['modal'] else 'prop')] += 1
             else:
-                prem, conc = tabrun.rand_argument(rng, depth=rng.choice([2, 3]), **f)
-                dist['random-' + ('modal' if f['modal'] else 'prop')] += 1
+                prem, conc = tabrun.rand_argument(rng, depth=rng.choice([2, 3]) if not f['quant'] else 2, **f)
+                dist['random-' + ('fo-' if f['quant'] else '') + ('modal' if f['modal'] else 'prop')] += 1
             jobs.append(tabrun.job_for(len(jobs), lg, prem, conc, opts=tabrun.OPTS[rng.randrange(4)], mode='step',
                                        max_steps=ctx.scale(150, 400), probe=True))
     return jobs, dist
@@ -180,7 +183,7 @@ def run_part(ctx: Ctx, data, prefix: str = PREFIX, salt: str = ''):
     t0 = time.time()
     rng = __import__('random').Random(f'{ctx.seed}:search-corr:{salt}')
     seeds = SEEDS_T if ctx.thorough else SEEDS_Q
-    jobs, dist = make_jobs(ctx, data, rng, ctx.scale(10, 80), ctx.scale(3, 16))
+    jobs, dist = make_jobs(ctx, data, rng, ctx.scale(10, 80), ctx.scale(5, 24))
     stats = collections.Counter()
     fam_hist, applied_hist, unmodelled_applied = collections.Counter(), collections.Counter(), collections.Counter()
     reqs, where = [], []
